@@ -592,12 +592,12 @@ func c08FlexZero(c *core.Check) {
 			}
 		}
 		if undecided != "" {
-			r.Unknown(key, p.Pos(guard.Pos()), undecided)
+			r.Unknown(key, p.Pos(fn.Pos()), undecided)
 			continue
 		}
 		got := reached && holds
 		forced := isNum && isZero && !(grow && shrink)
 		want := !basis && !forced
-		r.Cond(got == want, key, p.Pos(guard.Pos()), fmt.Sprintf("tried as basis: %v", want), fmt.Sprintf("tried as flex-basis: %v, CSS Flexbox gives %v", got, want))
+		r.Cond(got == want, key, p.Pos(fn.Pos()), fmt.Sprintf("tried as basis: %v", want), fmt.Sprintf("tried as flex-basis: %v, CSS Flexbox gives %v", got, want))
 	}
 }
